@@ -480,6 +480,14 @@ def rule_l8(ctx, facts):
                         # null results and results of nested finders are not judged here
                         if calls and all(callee_str(x).endswith("Shared::null") or is_finder(facts, x) for x in calls):
                             continue
+                        # ... nor a pointer that is returned on the edge where it was just seen to be null (`if p.is_null() { return p }`)
+                        null_edges = []
+                        for blk2 in range(len(b.blocks)):
+                            cd2 = cond_of(b, blk2)
+                            if cd2 and cd2["kind"] == "is_null" and cd2.get("arg") in fl.copies_of(src):
+                                null_edges.append((blk2, cd2["true"]))
+                        if null_edges and dominated_by_edge(b, Point(bi, si), null_edges):
+                            continue
                         n += 1
                         # judged where the returned pointer is produced (the copy into the return place may sit behind a join,
                         # e.g. the common return block of an inlined helper)
